@@ -18,6 +18,10 @@ def run(ctx):
             + [(0, None, None, 200)] * 2
     for i, (jit, thr, pw, rounds) in enumerate(plan):
         jobs.append((binary, hooks, seeds[i], jit if hooks else 0, thr, pw, rounds, ctx.quick))
+    # the claim / rename races proper get their own jobs (the mixed jobs above spend most rounds on other workloads)
+    for k in range(4):
+        jobs.append((binary, hooks, seeds[42 + k], (2000, 500, 5000, 0)[k] if hooks else 0, (None, 4, None, 2)[k],
+                     "stormpw" if k == 2 else None, 30 if ctx.quick else 200, ctx.quick, ["claim", "claim", "claim", "rename"]))
     # W10 needs some 12 MB per round: its own two jobs (debug build; with and without jitter)
     jobs.append((binary, hooks, seeds[40], 0, None, None, 2 if ctx.quick else 12, ctx.quick, ["backlog"]))
     jobs.append((binary, hooks, seeds[41], 2000 if hooks else 0, 2, None, 2 if ctx.quick else 12, ctx.quick, ["backlog"]))
